@@ -495,9 +495,132 @@ def facts_stage(ctx):
     return bad
 
 
+# ---- the regenerated tie, second kind: translated function bodies (extract -translate, docs/go2lean.md) ----
+# /verif/translated/<group>.lean: committed theorems about `NodisVerif.Translated.*`; header lines
+#   -- functions: <dir> <Func>, ...     -- properties: C01 C14     -- import: NodisVerif.Model.DsStr
+TRANSLATED_DIR = f"{ROOT}/translated"
+
+
+def translated_groups():
+    out = []
+    if not os.path.isdir(TRANSLATED_DIR):
+        return out
+    for fn in sorted(os.listdir(TRANSLATED_DIR)):
+        if not fn.endswith(".lean"):
+            continue
+        txt = open(f"{TRANSLATED_DIR}/{fn}").read()
+        props = re.findall(r"^-- properties:(.*)$", txt, flags=re.M)
+        imps = re.findall(r"^-- import:\s*(\S+)", txt, flags=re.M)
+        funcs = re.findall(r"^-- functions:(.*)$", txt, flags=re.M)
+        bare = re.sub(r"/-.*?-/", "", txt, flags=re.S)
+        bare = re.sub(r"--.*", "", bare)
+        names = re.findall(r"^theorem\s+([^\s:({\[]+)", bare, flags=re.M)
+        out.append({"name": fn[:-5], "text": txt, "bare": bare, "props": " ".join(props).split(), "imports": imps,
+                    "functions": [f.strip() for f in ",".join(funcs).split(",") if f.strip()], "theorems": names})
+    return out
+
+
+def translated_imports(pid):
+    mods = ["NodisVerif.Model.GoLib"]
+    for g in translated_groups():
+        if pid is None or pid in g["props"]:
+            mods += [m for m in g["imports"] if m not in mods]
+    return mods
+
+
+def run_translated(groups, workdir, repo=None):
+    """Translate the target functions of `repo` anew and elaborate the committed theorems of `groups` about them.
+    Returns (bad, info): bad = [(theorem or function, why)]."""
+    repo = repo or REPO
+    exe = f"{BUILD}/extract"
+    with Lock("go"):
+        rc, so, se = sh(["go", "build", "-o", exe, "."], cwd=f"{ROOT}/extract", env=GOENV, timeout=600)
+    if rc != 0:
+        return [("go2lean", "the translator does not build: " + se[-300:])], {}
+    t0 = time.time()
+    rc, gen, se = sh([exe, "-translate", repo, f"{ROOT}/extract/go2lean.targets"], timeout=120)
+    bad = []
+    outside = [l for l in se.splitlines() if l.startswith("go2lean:")]
+    if rc not in (0, 3) or not gen.strip():
+        return [("go2lean", "the translator failed: " + se.strip()[-400:])], {}
+    mods = ["NodisVerif.Model.GoLib"]
+    for g in groups:
+        mods += [m for m in g["imports"] if m not in mods]
+    names = [n for g in groups for n in g["theorems"]]
+    body = [f"import {m}" for m in mods] + [gen]
+    for g in groups:
+        body += [f"-- ==== translated/{g['name']}.lean ====", g["text"]]
+    body += [f"#print axioms NodisVerif.TranslatedTie.{n}" for n in names]
+    path = f"{workdir}/Translated.lean"
+    open(path, "w").write("\n".join(body) + "\n")
+    try:
+        with Lock("lake"):
+            # own process group: on a timeout the lean process (a grandchild) must go too
+            pr = subprocess.Popen(["lake", "env", "lean", path], cwd=LEAN, stdout=subprocess.PIPE, stderr=subprocess.STDOUT,
+                                  text=True, errors="replace", start_new_session=True)
+            try:
+                out, _ = pr.communicate(timeout=int(os.environ.get("VERIF_TRANSLATE_TIMEOUT", "240")))
+            except subprocess.TimeoutExpired:
+                import signal
+                os.killpg(pr.pid, signal.SIGKILL)
+                pr.communicate()
+                raise
+    except subprocess.TimeoutExpired:
+        # e.g. a slip that makes a kernel evaluation diverge: every obligation of the run counts as not proved
+        out = f"{path}:1:1: error: elaboration of the obligations did not finish in time (a changed function makes an evaluation diverge)"
+        out = out.replace(path, "Translated.lean")
+    forb = re.compile(r"\b(sorry|admit|native_decide|bv_decide|implemented_by|unsafe)\b|^axiom\s|maxHeartbeats 0\b", re.M)
+    # where each theorem starts in the work file, to attribute Lean's errors to theorems
+    flines = open(path).read().split("\n")
+    starts = sorted((i + 1, m.group(1)) for i, l in enumerate(flines) for m in [re.match(r"theorem\s+([^\s:({\[]+)", l)] if m)
+    errs = [(int(m.group(1)), m.group(0)) for m in re.finditer(r"Translated\.lean:(\d+):\d+: error:[^\n]*(?:\n(?!\S*Translated\.lean:\d+)[^\n]*){0,6}", out)]
+
+    def error_of(name):
+        for k, (ln, n) in enumerate(starts):
+            if n == name:
+                end = starts[k + 1][0] if k + 1 < len(starts) else len(flines) + 1
+                for eln, txt in errs:
+                    if ln <= eln < end:
+                        return txt
+        return None
+    ok = []
+    for g in groups:
+        m = forb.search(g["bare"])
+        if m:
+            bad.append((f"translated/{g['name']}.lean", f"forbidden token {m.group(0)!r}"))
+        missing = [l for l in outside if any((" " + f + ":") in l for f in g["functions"])]
+        for n in g["theorems"]:
+            m = re.search(r"'NodisVerif\.TranslatedTie\." + re.escape(n) + r"' (does not depend on any axioms|depends on axioms: \[([^\]]*)\])", out, flags=re.S)
+            ax = set() if not m or not m.group(2) else {a.strip() for a in m.group(2).replace("\n", " ").split(",") if a.strip()}
+            if not m or not ax <= ALLOWED_AXIOMS or "sorryAx" in ax:
+                why = "; ".join(missing)[:400] if missing else ""
+                if not why:
+                    why = (error_of(n) or (errs[0][1] if errs else "not proved"))[:500]
+                bad.append((n, f"obligation about translated Go code no longer holds (translated/{g['name']}.lean over {path}): {why}"))
+            else:
+                ok.append(n)
+    info = {"translator": "/verif/extract -translate (go/ast, docs/go2lean.md)", "groups": [g["name"] for g in groups],
+            "functions": sorted({f for g in groups for f in g["functions"]}), "theorems": ok,
+            "failed": [b[0] for b in bad], "outside_subset": outside, "wall_s": round(time.time() - t0, 2)}
+    return bad, info
+
+
+def translate_stage(ctx):
+    groups = [g for g in translated_groups() if ctx.pid in g["props"]]
+    if not groups:
+        return []
+    n = sum(len(g["theorems"]) for g in groups)
+    ctx.obligations += n
+    bad, info = run_translated(groups, ctx.work)
+    ctx.discharged += len(info.get("theorems", []))
+    ctx.theorems += ["TranslatedTie." + t for t in info.get("theorems", [])]
+    ctx.cov["translated_code"] = info
+    return bad
+
+
 def proof_stage(ctx, extra_targets=()):
     """Steps 3+4. Returns True if all obligations were discharged."""
-    rc, out = lake_build(ctx, [f"NodisVerif.Props.{ctx.pid}", "NodisVerif.Spec.SourceFacts", "driver", *extra_targets])
+    rc, out = lake_build(ctx, [f"NodisVerif.Props.{ctx.pid}", "NodisVerif.Spec.SourceFacts", "driver", *translated_imports(ctx.pid), *extra_targets])
     if rc != 0:
         first = re.search(r"error: ([^\n]*\.lean:\d+:\d+:[^\n]*)", out)
         ctx.notes.append("lake build failed: " + (first.group(1) if first else out[-300:]))
@@ -506,7 +629,7 @@ def proof_stage(ctx, extra_targets=()):
         ctx.build_log = out[-6000:]
         return False
     bad, out = audit(ctx)
-    bad = bad + facts_stage(ctx)
+    bad = bad + facts_stage(ctx) + translate_stage(ctx)
     if bad:
         ctx.broken_proof = "; ".join(f"{n}: {why}" for n, why in bad)
         ctx.build_log = out[-3000:]
